@@ -1028,8 +1028,77 @@ func (im *impl) oracle(step int, d *Dump) []OracleFail {
 	for k, v := range wantG {
 		wantG[k] = normGW(v)
 	}
-	if sub, what := mapDiff(wantG, gotG); sub != "" {
-		fail("gateway-services", sub+":"+classifyGW(wantG, gotG), what)
+	// every differing row is classified by its own SHAPE in the current state (not by the history); rows of
+	// one shape are reported together.  Only the shapes of the open findings have a name; anything else is
+	// "unclassified" and can never be attributed to a known finding.
+	{
+		groups := map[string][]string{}
+		keys := map[string]bool{}
+		for k := range wantG {
+			keys[k] = true
+		}
+		for k := range gotG {
+			keys[k] = true
+		}
+		for k := range keys {
+			w, hasW := wantG[k]
+			g, hasG := gotG[k]
+			if hasW && hasG && w == g {
+				continue
+			}
+			svc := strings.Split(k, "|")[1]
+			any, connect, nonNative, typical := hasInstances(d, svc)
+			shape := "unclassified"
+			switch {
+			case hasW && !hasG:
+				// expected from an ingress wildcard for a name that has a connect instance but no typical
+				// instance (a sidecar proxy's destination): the config-write path skips such names
+				if w == "ingress-gateway|true|-" && connect && !typical {
+					shape = "missing:ingress-wildcard-name-without-typical-instance"
+				}
+				// expected from a terminating wildcard only because a NON-typical instance (a proxy named like
+				// the service) is the name's non-native instance: the registration path did not count it
+				if w == "terminating-gateway|true|-" && typical && nonNative {
+					typicalNonNative := false
+					for i := range d.Services {
+						if r := &d.Services[i]; r.Name == svc && r.Kind == "" && !r.Native {
+							typicalNonNative = true
+						}
+					}
+					if !typicalNonNative {
+						shape = "missing:terminating-wildcard-non-typical-name"
+					}
+				}
+			case !hasW && hasG:
+				switch {
+				case g == "ingress-gateway|true|-" && destConf(d, svc) && !any:
+					shape = "extra:ingress-wildcard-destination" // written by the config-write path only
+				case g == "terminating-gateway|true|-" && any && nonNative && !typical:
+					shape = "extra:terminating-wildcard-non-typical-name" // kept/created by the registration path only
+				case strings.Contains(g, "|true|") && !any && !destConf(d, svc):
+					// left behind (known: only when an instance was redefined or a Destination dropped by an update)
+					shape = "extra:wildcard-row-of-absent-name"
+				case strings.Contains(g, "|true|") && any:
+					// the name has instances but none that qualifies for this gateway kind any more
+					// (known: only when an instance was redefined, e.g. became connect-native, without a delete)
+					shape = "extra:wildcard-row-of-unqualified-name"
+				}
+			default:
+				if strings.HasSuffix(g, "|destination") && strings.TrimSuffix(g, "destination") == strings.TrimSuffix(w, "-") && !destConf(d, svc) {
+					shape = "differ:stale-destination-kind" // known: only after a Destination was dropped by an update
+				}
+			}
+			groups[shape] = append(groups[shape], fmt.Sprintf("%s: want %q got %q", k, w, g))
+		}
+		var shapes []string
+		for sh := range groups {
+			shapes = append(shapes, sh)
+		}
+		sort.Strings(shapes)
+		for _, sh := range shapes {
+			sort.Strings(groups[sh])
+			fail("gateway-services", sh, strings.Join(groups[sh], "; "))
+		}
 	}
 	for _, gw := range append(append([]string{}, tgwNames...), igwNames...) {
 		_, gs, err := st.GatewayServices(nil, gw, nil)
@@ -1455,29 +1524,29 @@ func (t *tracker) cause(f *OracleFail) string {
 		if (t.flags["pair-declared-twice"] && t.flags["upstreams-changed"]) || t.flags["instance-redefined"] || t.flags["wildcard-gateway"] {
 			return "upstream-dropped-or-instance-redefined-or-wildcard-gateway"
 		}
-		// the same instance written under two spellings of its node name (mixed-case stream only)
-		if t.flags["node-respelled"] {
-			return "node-respelled"
-		}
+		// (an instance written under two spellings of its node name is fine since /repo dc11ff4)
 	case "gateway-services":
 		if strings.HasPrefix(f.Sub, "api-") {
 			return ""
 		}
-		// still excluded: an INGRESS gateway with a wildcard, or any wildcard next to a non-typical instance that
-		// shares its name with a proxy destination or with typical instances (all: the registration / cleanup
-		// path and the config-write path disagree on which names a wildcard covers), an instance redefined
-		// while some gateway has a wildcard (the old name's association stays), a destination dropped by
-		// an update.  A service listed next to a wildcard, or linked by two gateways, is fine by itself
-		// (since /repo a882280, 948377c).
-		if t.flags["ingress-wildcard-gateway"] ||
-			(t.flags["wildcard-gateway"] && (t.flags["non-typical-instance-named-like-destination"] || t.flags["name-shared-across-kinds"])) {
+		// the open findings, by the SHAPE of the differing rows (computed by the oracle from the current
+		// state); a history class is required in addition only where the shape alone could also be
+		// produced by something else
+		switch f.Sub {
+		case "missing:ingress-wildcard-name-without-typical-instance", "extra:ingress-wildcard-destination",
+			"extra:terminating-wildcard-non-typical-name", "missing:terminating-wildcard-non-typical-name":
 			return "wildcard-order"
-		}
-		if t.flags["wildcard-gateway"] && t.flags["instance-redefined"] {
-			return "instance-redefined"
-		}
-		if t.flags["destination-dropped-by-update"] {
-			return "destination-dropped-by-update"
+		case "extra:wildcard-row-of-absent-name", "extra:wildcard-row-of-unqualified-name":
+			if t.flags["instance-redefined"] {
+				return "instance-redefined"
+			}
+			if f.Sub == "extra:wildcard-row-of-absent-name" && t.flags["destination-dropped-by-update"] {
+				return "destination-dropped-by-update"
+			}
+		case "differ:stale-destination-kind":
+			if t.flags["destination-dropped-by-update"] {
+				return "destination-dropped-by-update"
+			}
 		}
 	}
 	return ""
@@ -1976,8 +2045,8 @@ func corpus() map[string][]Cmd {
 			{Kind: "deregister", Idx: 7, Node: "DB.Node-2", SvcID: "Svc-1"},
 			{Kind: "deregister", Idx: 8, Node: "web-host-1"},
 		},
-		// still failing: the same instance written under two spellings of its node name: the pair gets a
-		// reference per spelling and only the row's spelling is removed on deregistration
+		// regression (dc11ff4): the same instance written under two spellings of its node name used to get a
+		// reference per spelling, and only the row's spelling was removed on deregistration
 		"topology-mixed-case-node-respelled": {
 			reg(3, "Web-Host-1", proxy("Svc-1", "Web-proxy", "Web", "db.v1")),
 			reg(4, "web-host-1", &SvcSpec{ID: "Svc-1", Name: "Web-proxy", Kind: "connect-proxy", Dest: "Web", Port: 81, Ups: []string{"db.v1"}}),
